@@ -352,3 +352,52 @@ def run(pid, tier, seed):
                          "HashMap iteration order is not compared (callbacks are sorted within a stabilise)"],
                         time.time() - t0, len(violations) if violations else (1 if rc else 0))
     return rc
+
+
+def replay(path):
+    """./verify replay <file>: run the history of a replay file through the model and the crate again and
+    print what each did, where they differ on the property's projection, and the oracle's verdict"""
+    import json
+    r = json.load(open(path))
+    pid = r["property"]
+    spec = SPECS[pid]
+    cases = []
+    if "source" in r:
+        cases.append((r.get("profile", "debug"), r["source"]))
+    for d in r.get("first_disagreements") or []:
+        cases.append((d.get("profile", "debug"), d["source"]))
+    if not cases:
+        print(json.dumps(r, indent=1)[:4000])
+        print("this replay names a broken proof obligation or build failure; there is no history to run")
+        return 0
+    profiles = sorted({p for p, _ in cases})
+    model, impl = ec.build(profiles)
+    rc = 0
+    for prof, lines in cases:
+        dbg = 1 if prof == "debug" else 0
+        texts = [("replay", ec.history_text("replay", lines, debug=dbg, dump=1 if spec["dump"] else 0))]
+        mo = ec.run_all(model, texts).get("replay", [])
+        io = ec.run_all(impl[prof], texts).get("replay", [])
+        iops, itail = T.parse_trace(io)
+        print(f"== {pid} {prof}: {len(lines)} operations")
+        for i, l in enumerate(lines):
+            print(f"  {i:3d}  {l}")
+        pm = proj(ec.normalise(mo), lines, **spec["proj"])
+        pi = proj(ec.normalise(io), lines, **spec["proj"])
+        d = ec.first_diff(pm, pi)
+        if d:
+            rc = 1
+            print(f"model and crate differ on the projection of {pid} at line {d[0]}:\n  model: {d[1]}\n  crate: {d[2]}")
+        else:
+            print(f"model and crate agree on the projection of {pid} ({len(pi)} lines)")
+        try:
+            why = spec["oracle"](lines, iops, itail)
+        except Exception as e:
+            why = f"oracle could not evaluate the trace: {type(e).__name__}: {e}"
+        if why:
+            k = next((k for k in load_known(pid) if matches_known(k, why, lines)), None)
+            print(("known finding %s: " % k["id"] if k else "oracle: ") + why)
+            rc = rc or (0 if k else 1)
+        else:
+            print("oracle: the property holds on this history")
+    return rc
